@@ -117,10 +117,10 @@ func (c *channel) cancelPendingMsgs() {
 	defer c.responseMut.Unlock()
 	for msgID, router := range c.responseRouters {
 		router.c <- response{nid: c.node.ID(), err: streamDownErr}
-		// delete the router if we are only expecting a single reply message
-		if !router.streaming {
-			delete(c.responseRouters, msgID)
-		}
+		// the error is final for this node: the request is not sent again
+		// on a new stream, so also a streaming call must not hear from
+		// this node again.
+		delete(c.responseRouters, msgID)
 	}
 }
 
@@ -129,8 +129,9 @@ func (c *channel) routeResponse(msgID uint64, resp response) {
 	defer c.responseMut.Unlock()
 	if router, ok := c.responseRouters[msgID]; ok {
 		router.c <- resp
-		// delete the router if we are only expecting a single reply message
-		if !router.streaming {
+		// delete the router if we are only expecting a single reply message,
+		// or if the node reported an error (which is final for this call)
+		if !router.streaming || resp.err != nil {
 			delete(c.responseRouters, msgID)
 		}
 	}
